@@ -113,9 +113,9 @@ std::string check_deriv(const Ctx& c, Chooser& ch, Stats* st, const std::vector<
       int maxd = (int)c.s.dims[d].order + 1;
       int v = (int)ch.draw(0, maxd);
       if (v >= 2 && !strictly_increasing) v = (int)ch.draw(0, 1);           // property: knots strictly increasing for orders >= 2
-      if (v >= 2 && exclude_known() && is_knot_ge_ku(c.s.dims[d], x[d])) {  // known finding C02-high-deriv-at-upper-knots
-        v = 1; if (st) st->excluded_known++;
-      }
+      // (the former exclusion of derivative orders >= 2 at knots >= the upper support end, known finding
+      //  C02-high-deriv-at-upper-knots, was removed when the defect was repaired in /repo)
+      if (v >= 2 && is_knot_ge_ku(c.s.dims[d], x[d]) && st) st->label("deriv>=2_at_upper_knot");
       dv[d] = v; du[d] = (unsigned)v;
       if (v >= 2) high = true;
       if (v > (int)c.s.dims[d].order) above_order = true;
